@@ -112,8 +112,14 @@ func genAlnSeq(t *rapid.T, n int, label string) string {
 
 // genC03Bulk: an alignment whose total size (records x width) is beyond 1 MiB / 2 MiB - the everyday size of a real run
 // (35 SARS-CoV-2 genomes are 1 MiB) - built from a handful of drawn templates so that generation stays cheap.
+// c03Chromosome enables the > 2^20-column class; set by TestC03 / FuzzC03 only.
+var c03Chromosome bool
+
 func genC03Bulk(t *rapid.T) c03Case {
 	w := rapid.SampledFrom([]int{2000, 5000, 29903, 70000, 70000, 1048600}).Draw(t, "bulkWidth") // 70000: column numbers beyond 16 bits; 1048600: beyond 2^20
+	if w > 1<<20 && !c03Chromosome {
+		w = 70000 // the checks that borrow this generator (C12, C13, C18, C19) multiply or unwrap the records: no chromosome-sized rows there
+	}
 	total := rapid.SampledFrom([]int{1100000, 1300000, 2200000}).Draw(t, "bulkTotal")
 	unit := genACGT(t, 997, "bulkUnit")
 	ref := []byte(strings.Repeat(unit, w/997+1)[:w])
@@ -216,6 +222,7 @@ func genC03(t *rapid.T) c03Case {
 }
 
 func TestC03(t *testing.T) {
+	c03Chromosome = true
 	// exhaustive part: every symbol pair x gap mode x letter-case combination x column
 	n := runEnumerated(t, "C03", func(yield func(c03Case) bool) {
 		for _, hg := range []bool{false, true} {
